@@ -23,7 +23,8 @@ EXTENDS Integers, Sequences, FiniteSets, TLC, Json
 CONSTANTS Keys,      \* keys usable by the environment ("z" is used by callbacks)
           MaxE,      \* largest expiry the environment uses
           MaxOps,    \* operation budget (bounds the exhaustive run)
-          GenHist    \* TRUE: record the action history (generator / trace mode)
+          GenHist,   \* TRUE: record the action history (generator / trace mode)
+          GenKinds   \* timer kinds the generator uses (focus = more collisions)
 
 VARIABLES now,     \* [H |-> height, T |-> time]
           timers,  \* [Kinds -> set of [e, k, d, u]]   at most one per (e,k)
@@ -135,21 +136,22 @@ Spec == Init /\ [][Next]_vars
 
 -----------------------------------------------------------------------------
 \* Generator: one choice per action *kind* so that -simulate does not starve Tick/Del.
-RandAdd == LET kind == RandomElement(Kinds)  e == RandomElement(2..MaxE)
-               k == RandomElement(Keys)      d == RandomElement(Progs)
-           IN Add(kind, e, k, d)
+\* expiries are drawn relative to the current value (few distinct ones => collisions are common)
+RandAdd == \E kind \in {RandomElement(GenKinds)}, de \in {RandomElement(1..3)},
+              k \in {RandomElement(Keys)}, d \in {RandomElement({"N", "N", "N", "A", "X", "D"})} :
+             Add(kind, now[kind] + de, k, d)
 Pending == {[kind |-> kind, e |-> t.e, k |-> t.k] : kind \in Kinds, t \in UNION {timers[q] : q \in Kinds}}
 RandDel == \E kind \in Kinds : timers[kind] # {} /\
              LET t == RandomElement(timers[kind]) IN Del(kind, t.e, t.k)
-RandHas == LET kind == RandomElement(Kinds) e == RandomElement(2..MaxE) k == RandomElement(Keys \cup {"z"})
-           IN Has(kind, e, k)
-RandTick == LET dh == RandomElement({1, 1, 2}) dt == RandomElement({0, 1, 2}) IN Tick(dh, dt)
+RandHas == \E kind \in {RandomElement(GenKinds)}, de \in {RandomElement(0..3)}, k \in {RandomElement(Keys \cup {"z"})} :
+             Has(kind, now[kind] + de, k)
+RandTick == \E dh \in {RandomElement({1, 1, 2})}, dt \in {RandomElement({0, 1, 1, 2})} : Tick(dh, dt)
 \* kinds are weighted by listing: adds and ticks dominate, queries are rare
 GenNext == /\ nops < MaxOps /\ nops' = nops + 1
            /\ \E c \in {RandomElement(1..10)} :     \* bound once (a LET would be re-evaluated per use)
                 \/ c \in 1..4 /\ RandAdd
-                \/ c \in 5..7 /\ RandTick
-                \/ c = 8 /\ (RandDel \/ ((\A q \in Kinds : timers[q] = {}) /\ RandTick))
+                \/ c \in 5..6 /\ RandTick
+                \/ c \in 7..8 /\ (RandDel \/ ((\A q \in Kinds : timers[q] = {}) /\ RandTick))
                 \/ c = 9 /\ RandHas
                 \/ c = 10 /\ Reload
 Emit == nops < MaxOps \/ PrintT(<<"BEH", ToJson(hist)>>)
